@@ -46,25 +46,26 @@ Proof.
 Qed.
 
 (* when does one step contribute the potential rise?  [phi] is the node potential
-   extended to the dummy nodes of the circuit graph *)
+   extended to the dummy nodes of the circuit graph (a dummy node is wired to the
+   second node of the parallel component it belongs to, so it carries that potential) *)
 Definition step_sound (k : lkind) (s : K) (N : list (lelt K)) (edges : list (Z * Z * nat)) (loops : list (list Z))
     (Im Im0 : nat -> K) (m : nat) (phi : Z -> K) (v ib : Z -> K) (ab : Z * Z) : Prop :=
   match edge_lookup edges (fst ab) (snd ab) with
   | None => phi (fst ab) = phi (snd ab)                       (* dummy wire: equipotential *)
   | Some i =>
     exists (l : lelt K) (cl : cname) (c : sctx K),
-      nth_error N i = Some l /\ le_n1 l = p0 c /\ le_n2 l = p1 c /\ p0 c <> p1 c /\
-      (* the walk really runs along this element *)
-      ((fst ab = p0 c /\ snd ab = p1 c) \/ (fst ab = p1 c /\ snd ab = p0 c)) /\
-      fsub (phi (p0 c)) (phi (p1 c)) = dV01 c v /\
+      nth_error N i = Some l /\ le_n1 l = p0 c /\ le_n2 l = p1 c /\
+      (* the walk runs along this element: forward (as the model decides it) with a rise of -(v(n1) - v(n2)),
+         or backward with a rise of v(n1) - v(n2) *)
+      ((step_fwd l ab = true /\ rise phi ab = fopp (dV01 c v)) \/ (step_fwd l ab = false /\ rise phi ab = dV01 c v)) /\
       (if is_V l then
          (* voltage source: printed value = the value the solver imposes, and the source relation holds *)
          mesh_term true true (veq_of LV k (le_par l) s (Im m) (Im0 m)) = fopp (dV01 c v) /\
          mesh_term true false (veq_of LV k (le_par l) s (Im m) (Im0 m)) = dV01 c v
        else
          (* passive element: soundness of its printed relation at the credited current *)
-         let cur := mesh_current (le_n1 l) (le_n2 l) loops Im 0 in
-         let cur0 := mesh_current (le_n1 l) (le_n2 l) loops Im0 0 in
+         let cur := mesh_current edges i (le_n1 l) (le_n2 l) loops Im 0 in
+         let cur0 := mesh_current edges i (le_n1 l) (le_n2 l) loops Im0 0 in
          mesh_term false true (veq_of (le_cls l) k (le_par l) s cur cur0) = fopp (dV01 c v) /\
          mesh_term false false (veq_of (le_cls l) k (le_par l) s cur cur0) = dV01 c v)
   end.
@@ -72,13 +73,33 @@ Theorem mesh_step_sound k s N edges loops Im Im0 m phi v ib ab :
   step_sound k s N edges loops Im Im0 m phi v ib ab ->
   mesh_step k s N edges loops Im Im0 m ab = rise phi ab.
 Proof.
-  unfold step_sound, mesh_step, rise. destruct (edge_lookup edges (fst ab) (snd ab)) as [i|].
-  - intros [l [cl [c [En [E1 [E2 [Hne [Hdir [Hphi Hrel]]]]]]]]]. rewrite En. rewrite E1, E2 in *.
-    destruct Hdir as [[A B]|[A B]]; rewrite A, B.
-    + rewrite !Z.eqb_refl. cbn [andb]. destruct (is_V l); destruct Hrel as [R1 _]; rewrite R1, <- Hphi; ring.
-    + destruct (Z.eqb_spec (p0 c) (p1 c)) as [E|_]; [contradiction|]. cbn [andb].
-      destruct (is_V l); destruct Hrel as [_ R2]; rewrite R2, <- Hphi; ring.
-  - intros E. rewrite E. ring.
+  unfold step_sound, mesh_step. destruct (edge_lookup edges (fst ab) (snd ab)) as [i|].
+  - intros [l [cl [c [En [E1 [E2 [Hdir Hrel]]]]]]]. rewrite En.
+    destruct Hdir as [[F R]|[F R]]; rewrite F, R; destruct (is_V l); destruct Hrel as [R1 R2]; assumption.
+  - intros E. unfold rise. rewrite E. ring.
+Qed.
+(* the direction premise for a step between the element's own two nodes, and for the step between the first
+   node of a parallel element and its dummy node (either way round) *)
+Lemma dir_plain (l : lelt K) (c : sctx K) (phi : Z -> K) (v : Z -> K) (ab : Z * Z) :
+  le_n1 l = p0 c -> le_n2 l = p1 c -> p0 c <> p1 c -> fsub (phi (p0 c)) (phi (p1 c)) = dV01 c v ->
+  ((fst ab = p0 c /\ snd ab = p1 c) \/ (fst ab = p1 c /\ snd ab = p0 c)) ->
+  (step_fwd l ab = true /\ rise phi ab = fopp (dV01 c v)) \/ (step_fwd l ab = false /\ rise phi ab = dV01 c v).
+Proof.
+  intros E1 E2 Hne Hphi [[A B]|[A B]]; unfold step_fwd, rise; rewrite E1, E2, A, B.
+  - left. rewrite !Z.eqb_refl. destruct mesh_fwd_first_only; cbn [andb]; split; try reflexivity; rewrite <- Hphi; ring.
+  - right. destruct (Z.eqb_spec (p0 c) (p1 c)) as [E|_]; [contradiction|].
+    destruct mesh_fwd_first_only; cbn [andb]; split; try reflexivity; rewrite <- Hphi; ring.
+Qed.
+Lemma dir_dummy (l : lelt K) (c : sctx K) (phi : Z -> K) (v : Z -> K) (ab : Z * Z) (d : Z) :
+  mesh_fwd_first_only = true ->
+  le_n1 l = p0 c -> d <> p0 c -> phi d = phi (p1 c) -> fsub (phi (p0 c)) (phi (p1 c)) = dV01 c v ->
+  ((fst ab = p0 c /\ snd ab = d) \/ (fst ab = d /\ snd ab = p0 c)) ->
+  (step_fwd l ab = true /\ rise phi ab = fopp (dV01 c v)) \/ (step_fwd l ab = false /\ rise phi ab = dV01 c v).
+Proof.
+  intros Hf E1 Hd Hpd Hphi [[A B]|[A B]]; unfold step_fwd, rise; rewrite Hf, E1, A, B.
+  - left. rewrite Z.eqb_refl. split; [reflexivity|]. rewrite Hpd, <- Hphi. ring.
+  - right. destruct (Z.eqb_spec (p0 c) d) as [E|_]; [symmetry in E; contradiction|].
+    split; [reflexivity|]. rewrite Hpd, <- Hphi. ring.
 Qed.
 Corollary mesh_sat_steps k s N edges loops Im Im0 m phi v ib :
   (forall ab, In ab (steps (nth m loops [])) -> step_sound k s N edges loops Im Im0 m phi v ib ab) ->
@@ -103,9 +124,36 @@ Proof.
     rewrite H0, H1. cbn. ring.
   - apply IH. lia.
 Qed.
+(* crediting by the component itself: when a mesh runs along component i at most once, the scan
+   returns the signed traversal (no premise about node names: parallel components are covered) *)
+Fixpoint count_e (edges : list (Z * Z * nat)) (i : nat) (n1 : Z) (want_fwd : bool) (st : list (Z * Z)) : nat :=
+  match st with
+  | [] => O
+  | (a, b) :: st' =>
+      ((match edge_lookup edges a b with
+        | Some j => if Nat.eqb j i && Bool.eqb (Z.eqb n1 a) want_fwd then 1 else 0
+        | None => 0 end) + count_e edges i n1 want_fwd st')%nat
+  end.
+Lemma scan_e_count (edges : list (Z * Z * nat)) (i : nat) (n1 : Z) (st : list (Z * Z)) :
+  (count_e edges i n1 true st + count_e edges i n1 false st <= 1)%nat ->
+  @scan_e K edges i n1 st = fadd (if Nat.eqb (count_e edges i n1 true st) 1 then mesh_credit_fwd else f0)
+                                 (if Nat.eqb (count_e edges i n1 false st) 1 then mesh_credit_bwd else f0).
+Proof.
+  induction st as [|[a b] st IH]; intros H; cbn [scan_e count_e] in *; [cbn; ring|].
+  destruct (edge_lookup edges a b) as [j|]; [|apply IH; exact H].
+  destruct (Nat.eqb j i); cbn [andb] in *; [|apply IH; exact H].
+  destruct (Z.eqb n1 a); cbn [Bool.eqb Nat.add] in *.
+  - assert (count_e edges i n1 true st = 0%nat) by lia. assert (count_e edges i n1 false st = 0%nat) by lia.
+    rewrite H0, H1. cbn. ring.
+  - assert (count_e edges i n1 true st = 0%nat) by lia. assert (count_e edges i n1 false st = 0%nat) by lia.
+    rewrite H0, H1. cbn. ring.
+Qed.
 End C15mesh.
 Print Assumptions steps_telescope.
 Print Assumptions mesh_sat.
 Print Assumptions mesh_step_sound.
 Print Assumptions mesh_sat_steps.
 Print Assumptions scan_count.
+Print Assumptions scan_e_count.
+Print Assumptions dir_plain.
+Print Assumptions dir_dummy.
